@@ -17,6 +17,11 @@ Three parts (DESIGN.md, section C09):
 
 The keyword dictionary is harvested at run time from the sources under test; the value type and the documented
 context ("parent keyword") of each keyword are harvested at run time from the reference manual.
+
+Fuzzing: 8 (quick, 45 s) / 16 (thorough, 15 min) single-process libFuzzer workers on a shared corpus, no -fork.  This
+is what `-jobs=N -workers=N` does, except that a worker whose process ended with a crash is started again with the
+time that is left (bounded number of launches): a libFuzzer process stops at its first crash, and without that a
+tree with shallow crashes would be observed for a few hundred executions only.
 """
 import collections
 import hashlib
@@ -46,6 +51,9 @@ TESTS = _ref_dir("tests/input_files")
 DOC = _ref_dir("doc")
 AUX_FILES = ["index.ndx", "rmsd_atoms_refpos.xyz", "rmsd_atoms_refpos2.xyz", "rmsd_atoms_random.xyz",
              "heavy_atoms_refpos.xyz", "eigenvectors-localmin"]
+
+# development knob: VERIF_C09_PARTS=bc runs only the strictness and layout parts (the floors then report inconclusive)
+PARTS = os.environ.get("VERIF_C09_PARTS", "abc")
 
 TRUE_WORDS = ["on", "yes", "true"]
 FALSE_WORDS = ["off", "no", "false"]
@@ -880,11 +888,13 @@ def minimise(exe, data, cwd, kind, frame, work, tag, max_runs=120):
 
 def run_fuzz(c, tier, H, seeds):
     c.use_flavour("fuzz")
-    exe = common.vbuild.tool("fuzz", "fz_config")
     root = os.path.join(c.work, "fz")
     d = {k: os.path.join(root, k) for k in ("seeds", "corpus", "art", "cwd", "logs")}
     for p in d.values():
         os.makedirs(p, exist_ok=True)
+    # private copy of the target: a cache entry can be evicted by a concurrent build when /repo changes mid-run
+    exe = os.path.join(root, "fz_config")
+    shutil.copy(common.vbuild.tool("fuzz", "fz_config"), exe)
     for i, s in enumerate(seeds):
         with open(os.path.join(d["seeds"], "s%04d" % i), "wb") as f:
             f.write(s if isinstance(s, bytes) else s.encode("utf-8", "replace"))
@@ -1189,7 +1199,7 @@ def run(tier, replay):
     c.extra["valid_test_inputs"] = sum(1 for v in valid if v["name"].startswith("test:"))
 
     # ---- layout ----------------------------------------------------------------------------------------------
-    nrew = 2 if tier == "quick" else 8
+    nrew = (2 if tier == "quick" else 8) if "c" in PARTS else 0
     jobs = []
     for cf in valid:
         for k in range(nrew):
@@ -1245,7 +1255,7 @@ def run(tier, replay):
 
     # ---- strictness --------------------------------------------------------------------------------------------
     c.use_flavour("asan")
-    per_class = 2 if tier == "quick" else 6
+    per_class = (2 if tier == "quick" else 6) if "b" in PARTS else 0
     muts = []
     for cf in valid:
         rr = c.rng.__class__(c.rng.getrandbits(48))
@@ -1308,7 +1318,7 @@ def run(tier, replay):
     rr = c.rng.__class__(c.rng.getrandbits(48))
     for cf in valid[:40]:
         seeds.append(render(cf["tree"], Style(rr, [a for a in ASPECTS if rr.random() < 0.5], H["doc"])))
-    execs = 0 if os.environ.get("VERIF_C09_SKIP_FUZZ") else run_fuzz(c, tier, H, seeds)
+    execs = run_fuzz(c, tier, H, seeds) if "a" in PARTS else 0
 
     floor_fuzz = 10000 if tier == "quick" else 300000
     ok = execs >= floor_fuzz and nm >= 300 and pairs >= 60
